@@ -1,11 +1,94 @@
 (* C17 — Linter flags exactly what it names; text rewriters keep meaning and converge.
    Only statements, closed by [exact], with Print Assumptions.  The model is Model/Lint.v instantiated
-   with the tables regenerated from the toolchain and the source (Gen/LintTables.v, Inst/Inst_C17.v). *)
+   with the tables regenerated from the toolchain and the source (Gen/LintTables.v, Inst/Inst_C17.v).
+   A text is the list of its decoded characters; [decode s] is the text of the byte string s and
+   [decode_wf] shows that every decoded text is well formed ([wft]), so each statement below that
+   assumes [wft t] holds for [t := decode s] of every byte string s. *)
 From Coq Require Import List NArith Bool.
 From GV Require Import Model.Lint Proofs.LintP Gen.LintTables Inst.Inst_C17.
 Import ListNotations.
 
-Theorem C17_l001_fix_idempotent : forall s, l001_fix (l001_fix (decode s)) = l001_fix (decode s).
-Proof. intro s. exact (l001_fix_idempotent (decode s)). Qed.
+Theorem C17_decode_wf : forall s, wft (decode s).
+Proof. exact decode_wf. Qed.
 
+(* ---- convergence: applying a fix twice is applying it once (all texts) ---- *)
+Theorem C17_l001_fix_idempotent : forall t, l001_fix (l001_fix t) = l001_fix t.
+Proof. exact l001_fix_idempotent. Qed.
+Theorem C17_l002_fix_idempotent : forall t, l002_fix (l002_fix t) = l002_fix t.
+Proof. exact l002_fix_idempotent. Qed.
+Theorem C17_l003_fix_idempotent : forall t, i_l003_fix (i_l003_fix t) = i_l003_fix t.
+Proof. exact (fun t => l003_fix_idempotent_mx space 1 t (le_n 1)). Qed.
+Theorem C17_l010_fix_idempotent : forall t, l010_fix (l010_fix t) = l010_fix t.
+Proof. exact l010_fix_idempotent. Qed.
+Theorem C17_l007_fix_idempotent : forall t, i_l007_fix (i_l007_fix t) = i_l007_fix t.
+Proof. exact (l007_fix_idempotent_gen letter digit upper keywords_tab up_letter up_noquote up_idem). Qed.
+
+(* ---- re-lint: no violation of the rule remains after its fix ---- *)
+Theorem C17_l001_fix_clears : forall t, wft t -> l001_check (l001_fix t) = [].
+Proof. exact l001_fix_clears. Qed.
+Theorem C17_l002_fix_clears : forall t, l002_check (l002_fix t) = [].
+Proof. exact l002_fix_clears. Qed.
+Theorem C17_l003_fix_clears : forall t, i_l003_check (i_l003_fix t) = [].
+Proof. exact (fun t => l003_fix_clears_mx space 1 t (le_n 1)). Qed.
+
+(* ---- exact flagging, at an existing line and column ---- *)
+Theorem C17_l001_check_exact : forall t n col, wft t ->
+  In (n, col) (l001_check t) <->
+  exists l, nth_error (split_nl t) (n - 1) = Some l /\ 1 <= n /\ ends_blank l /\ col = S (blen (trim_r is_blank l)).
+Proof. exact l001_check_exact. Qed.
+Theorem C17_l001_location : forall t n col, wft t -> In (n, col) (l001_check t) ->
+  exists l, nth_error (split_nl t) (n - 1) = Some l /\ 1 <= n <= length (split_nl t) /\ 1 <= col <= blen l.
+Proof. exact l001_location. Qed.
+Theorem C17_l005_check_exact : forall mx t n col,
+  In (n, col) (i_l005_check mx t) <->
+  exists l, nth_error (split_nl t) (n - 1) = Some l /\ 1 <= n /\ l <> [] /\
+            (starts2 45 45 (i_trim_space l) || starts2 47 42 (i_trim_space l)) = false /\
+            mx < blen l /\ col = S mx.
+Proof. exact (l005_check_exact space). Qed.
+
+(* ---- conservation: whitespace rules change only whitespace, the keyword rule only letter case ---- *)
+Theorem C17_l001_ws_only : forall t, ink space (l001_fix t) = ink space t.
+Proof. exact (l001_ws_only space). Qed.
+Theorem C17_l002_ws_only : forall t, ink space (l002_fix t) = ink space t.
+Proof. exact (l002_ws_only space). Qed.
+Theorem C17_l003_ws_only : forall t, ink space (i_l003_fix t) = ink space t.
+Proof. exact (l003_ws_only space 1). Qed.
+Theorem C17_l010_ws_only : forall t, ink space (l010_fix t) = ink space t.
+Proof. exact (l010_ws_only space). Qed.
+Theorem C17_l007_case_only : forall t, map (fold upper) (i_l007_fix t) = map (fold upper) t.
+Proof. exact (l007_case_only letter digit upper keywords_tab up_idem). Qed.
+
+Print Assumptions C17_decode_wf.
 Print Assumptions C17_l001_fix_idempotent.
+Print Assumptions C17_l002_fix_idempotent.
+Print Assumptions C17_l003_fix_idempotent.
+Print Assumptions C17_l010_fix_idempotent.
+Print Assumptions C17_l007_fix_idempotent.
+Print Assumptions C17_l001_fix_clears.
+Print Assumptions C17_l002_fix_clears.
+Print Assumptions C17_l003_fix_clears.
+Print Assumptions C17_l001_check_exact.
+Print Assumptions C17_l001_location.
+Print Assumptions C17_l005_check_exact.
+Print Assumptions C17_l001_ws_only.
+Print Assumptions C17_l002_ws_only.
+Print Assumptions C17_l003_ws_only.
+Print Assumptions C17_l010_ws_only.
+Print Assumptions C17_l007_case_only.
+
+(* ---- non-vacuity: the hypotheses are met by concrete, non-trivial texts; the fixers do change them ---- *)
+Local Open Scope N_scope.
+Definition ex_bytes : list N :=   (* "select  1 \n\n\n\tfrom t\t" *)
+  [115;101;108;101;99;116;32;32;49;32;10;10;10;9;102;114;111;109;32;116;9].
+Example ex_wf : wft (decode ex_bytes).
+Proof. apply decode_wf. Qed.
+Example ex_l001_flags : l001_check (decode ex_bytes) = [(1, 10); (4, 8)]%nat.
+Proof. vm_compute. reflexivity. Qed.
+Example ex_l001_changes : encode (l001_fix (decode ex_bytes)) <> ex_bytes.
+Proof. vm_compute. discriminate. Qed.
+Example ex_l007 : encode (i_l007_fix (decode ex_bytes)) =
+  [83;69;76;69;67;84;32;32;49;32;10;10;10;9;70;82;79;77;32;116;9].
+Proof. vm_compute. reflexivity. Qed.
+Example ex_cli : encode (i_cli_fix (decode ex_bytes)) =
+  [83;69;76;69;67;84;32;49;10;10;32;32;32;32;70;82;79;77;32;116].
+Proof. vm_compute. reflexivity. Qed.
